@@ -89,6 +89,11 @@ def sources(tier, seed, ctx):
     for n in ([13, 17, 24, 31, 40] if tier == 'quick' else [13, 15, 16, 17, 20, 24, 28, 31, 32, 33, 36, 40]):
         k, sp = bs()
         srcs.append({'fn': 'add_sum_n_bits', 'n': n, 'basis': k, 'spelled': sp, 'big': bool(n % 2), 'host': None})
+    # more operands than any block size an implementation may split them into (256, 512): the all-ones row carries every block
+    # to its full count, the documented gate bound is checked as for every other width
+    for n in ([257, 300] if tier == 'quick' else [255, 256, 257, 300, 513, 1025]):
+        srcs.append({'fn': 'add_sum_n_bits', 'n': n, 'basis': 'XAIG', 'spelled': 'XAIG', 'big': bool(n % 2), 'host': None})
+        srcs.append({'fn': 'add_sum_n_bits', 'n': n, 'basis': 'AIG', 'spelled': 'AIG', 'big': False, 'host': None})
     wl, wmax = (4, 2) if tier == 'quick' else (5, 3)
     for L in range(1, wl + 1):
         for ws in itertools.product(range(wmax + 1), repeat=L):
